@@ -17,7 +17,7 @@ RULE = ('generated packages in which each object has at most one re-exporter (pa
         'the generator. Distinct: (project, realised order); non-trivial: at least one object was actually moved.')
 ASSUME = ['only the single-re-exporter shape the statement describes is generated',
           'a violation is credited to the known stale-import mechanism only if it disappears when that mechanism alone is repaired (vf/mon/repairs.py) and the same order is re-run']
-DECIDING = {'insider_annotations_checked': 100, 'insider_annotations_name_not_bound_by_reexporter': 50, 'moved_objects_checked': 300, 'consumer_refs_checked': 1000, 'xrefs_checked': 1000, 'base_refs_checked': 200, 'orders_run': 300,
+DECIDING = {'base_links_checked': 100, 'insider_annotations_checked': 100, 'insider_annotations_name_not_bound_by_reexporter': 50, 'moved_objects_checked': 300, 'consumer_refs_checked': 1000, 'xrefs_checked': 1000, 'base_refs_checked': 200, 'orders_run': 300,
             'negative_controls': 20}
 CPU_S = 900
 PER = 5
@@ -109,6 +109,18 @@ def _check_system(spec: project.Spec, system: Any, res: Optional[core.Res]) -> L
                 u = cmod.contents.get(f'U{cu}_{i}')
                 if isinstance(u, model.Class):
                     c('base_refs_checked')
+                    if any(b is target for b in u.baseobjects):
+                        # ... and the page of the subclass says so: the base in its signature links to the one documented object
+                        try:
+                            from pydoctor.templatewriter import pages as _pages
+                            from pydoctor.stanutils import flatten as _flatten
+                            import re as _re2
+                            hrefs = _re2.findall(r'href="([^"]+)"', _flatten(_pages.format_class_signature(u)))
+                        except Exception as e:  # noqa: BLE001
+                            hrefs = [f'<raised {e!r}>']
+                        c('base_links_checked')
+                        if target.url not in hrefs:
+                            out.append((f'consumer-base-link:{cons["style"]}', f'the signature of {u.fullName()} (base written {ref!r}, resolved to {target!r}) links to {hrefs}, not to {target.url}'))
                     if not any(b is target for b in u.baseobjects):
                         out.append((f'consumer-base:{cons["style"]}', f'{u.fullName()} has base written {ref!r}: resolved bases {u.baseobjects!r}, expected {target!r}',
                                     {'consumer': cmod.fullName(), 'reexporter': spec.modname(rmid),
